@@ -12,6 +12,10 @@ import time
 NCPU = min(16, os.cpu_count() or 4)
 REPO = os.environ.get("LZV_REPO", "/repo")
 GUARD = "--cfg lzma_rust2_verif"
+# only set by tools/mirror.py (scratch mirrors for exploratory sweeps): path remapping so that panic
+# locations keep the /repo/ prefix
+if os.environ.get("LZV_EXTRA_RUSTFLAGS"):
+    GUARD = GUARD + " " + os.environ["LZV_EXTRA_RUSTFLAGS"].strip()
 
 
 def log(*a):
